@@ -76,6 +76,9 @@ var c10Shapes = []struct {
 	{"value-result", "d *D, s *S", "*D", 0},
 	// a CONCRETE type that implements error: `err = H(...)` would compile, and a nil *HErr would read as a non-nil error
 	{"typed-error-result", "d *D, s *S", "*HErr", 0},
+	// a parameter WIDER than the argument it receives (interface{} for int) fits; the check must run in the direction of the call
+	{"arg-wider", "d *D, s *S, n interface{}, a AA", "", 1},
+	{"variadic", "d *D, s *S, n int, a ...AA", "", 0},
 	{"func-variable", "", "", 2},
 }
 
